@@ -279,7 +279,16 @@ pub fn generate(rng: &mut Rng, idx: usize) -> (C11Cfg, Vec<String>) {
         if rng.chance(1, 3) {
             // a client registered after an earlier run, then run again
             ctl.push(format!("sw client at={} outcome={} spawned=0", times(rng), *rng.pick(&["ok", "ok", "err", "never"])));
-            ctl.push("run".into());
+            if rng.chance(1, 2) {
+                ctl.push("run".into());
+            } else {
+                // … or driven step by step: `step` must decide exactly as `run` would (a step that begins beyond the
+                // duration with an unfinished client reports the timeout at once)
+                ctl.push(format!("stepn {}", rng.range(1, 4)));
+                if rng.chance(1, 2) {
+                    ctl.push("run".into());
+                }
+            }
         }
     }
     (c, ctl)
